@@ -859,11 +859,11 @@ def extract_item(item, meta, mutant=None, twin=False):
     expr_range = None
     if item.kind == "expr":
         # last step: "<start>" .. "<end>"
-        mm = re.match(r'^("(?:[^"\\]|\\.)*")(?:@(\d+))?\s*\.\.\s*("(?:[^"\\]|\\.)*")(?:@(\d+))?$', steps[-1])
+        mm = re.match(r'^("(?:[^"\\]|\\.)*")(?:@(\d+))?\s*\.\.(<?)\s*("(?:[^"\\]|\\.)*")(?:@(\d+))?$', steps[-1])
         if not mm:
             raise ExtractError(f"bad //%expr range: {steps[-1]}")
         expr_range = (lex_anchor(unq(mm.group(1))), int(mm.group(2)) if mm.group(2) else None,
-                      lex_anchor(unq(mm.group(3))), int(mm.group(4)) if mm.group(4) else None)
+                      lex_anchor(unq(mm.group(4))), int(mm.group(5)) if mm.group(5) else None, mm.group(3) == "<")
         steps = steps[:-1]
     path = []
     for s in steps[:-1]:
@@ -881,9 +881,10 @@ def extract_item(item, meta, mutant=None, twin=False):
     if item.kind == "expr":
         if bi is None:
             raise ExtractError("expr: function has no body")
-        a1, k1, a2, k2 = expr_range
+        a1, k1, a2, k2, excl = expr_range
         s_idx = select_match(toks, a1, k1, item.name + " expr-start", bi, ei + 1)
-        e_idx = select_match(toks, a2, k2, item.name + " expr-end", s_idx, ei + 1) + len(a2) - 1
+        e_idx = select_match(toks, a2, k2, item.name + " expr-end", s_idx, ei + 1)
+        e_idx = e_idx - 1 if excl else e_idx + len(a2) - 1
         start_b, end_b = toks[s_idx].start, toks[e_idx].end
         lo_idx, hi_idx = s_idx, e_idx
     else:
